@@ -227,3 +227,17 @@ Theorem C15_default_block_is_C01_block : forall syms,
   equations_block (snd (expressions unit conv_default tt syms)) = Fsic.CodeGen.CodeGenBlock.equations_block syms.
 Proof. exact default_block_is_C01_block. Qed.
 Print Assumptions C15_default_block_is_C01_block.
+
+(* which BuildError: the retry loop names symbols (`listed`) exactly when some symbol with an equation, alone and with the
+   default converter and typed template, fails to compile *)
+Theorem C15_retry_each_listed : forall Cls (exec : string -> exec_res Cls) syms failed b,
+  retry_each Cls exec syms failed = inl b ->
+  b = failed || existsb (fun s => match sequation s with
+                                  | None => false
+                                  | Some _ => match snd (build_def unit conv_default tt [s] default_opts true) with
+                                              | POk text => match exec text with ExecSyntaxError => true | _ => false end
+                                              | _ => false
+                                              end
+                                  end) syms.
+Proof. exact retry_each_listed. Qed.
+Print Assumptions C15_retry_each_listed.
